@@ -43,9 +43,13 @@ def mem_def(es, elems, n, e):
     return mem_fn(es)(elems, n, e) == z3.Exists([i], z3.And(0 <= i, i < n, z3.Select(elems, i) == e))
 
 
+_CONTAINER_TYPES = {}
+
+
 def container_arrays(t):
     """Names and sorts of the heap arrays that hold containers of type t."""
     k = t.key()
+    _CONTAINER_TYPES[k] = t
     if isinstance(t, T.List):
         return {k + ".len": z3.ArraySort(I, I), k + ".elem": z3.ArraySort(I, z3.ArraySort(I, T.sort(t.elem)))}
     if isinstance(t, T.Dict):
@@ -97,6 +101,22 @@ class Heap:
             self.sorts[name] = sort
             self.arr[name] = z3.Const("%s0!%s" % (self.tag, name), sort)
         return self.arr[name]
+
+    def ensure(self, name):
+        """declare a heap array by name (field array `Short.field` or a known container array)"""
+        if name in self.arr:
+            return self.arr[name]
+        if name in self.sorts:
+            return self.get(name)
+        short, _, field = name.rpartition(".")
+        for info in CLASSES.values():
+            if info.short == short and (field in info.fields or field in info.ghost):
+                fty = info.all_fields()[field]
+                return self.get(name, z3.ArraySort(I, T.sort(fty)))
+        t = _CONTAINER_TYPES.get(short)
+        if t is not None:
+            return self.get(name, container_arrays(t)[name])
+        raise KeyError(name)
 
     def set(self, name, arr):
         self.sorts[name] = arr.sort()
@@ -196,6 +216,21 @@ class Heap:
         """membership in a list as an uninterpreted predicate of (element array, length, value);
         its definition  mem(a,n,e) <=> exists i in [0,n). a[i]==e  is supplied by `mem_def`."""
         return mem_fn(T.sort(t.elem))(self.l_elems(t, c), self.c_len(t, c), z)
+
+    def l_mem_def(self, t, c):
+        """definition of list membership for this list in this state, for all values (a true fact)"""
+        es = T.sort(t.elem)
+        e = z3.Const(fresh_name("mdef_e"), es)
+        i = z3.Int(fresh_name("mdef_i"))
+        elems, n = self.l_elems(t, c), self.c_len(t, c)
+        return z3.ForAll([e], mem_fn(es)(elems, n, e) == z3.Exists([i], z3.And(0 <= i, i < n, z3.Select(elems, i) == e)), patterns=[mem_fn(es)(elems, n, e)])
+
+    def l_index_mem(self, t, c):
+        """every indexed element of the list is a member (a true fact, consequence of the definition of mem)"""
+        es = T.sort(t.elem)
+        i = z3.Int(fresh_name("im_i"))
+        elems, n = self.l_elems(t, c), self.c_len(t, c)
+        return z3.ForAll([i], z3.Implies(z3.And(0 <= i, i < n), mem_fn(es)(elems, n, z3.Select(elems, i))), patterns=[z3.Select(elems, i)])
 
     def l_append(self, t, c, z):
         n = self.c_len(t, c)
